@@ -27,7 +27,7 @@ MCInit == TSInit /\ cur = NONE /\ fuel = 0 /\ ops = <<>> /\ prog = [t \in Tasks 
 
 (* a call is either external (no run open; ends whatever function was executing) or made by cur's function *)
 Place(nested, a) ==
-    /\ steps' = steps + 1
+    /\ steps' = (IF Gen THEN steps + 1 ELSE steps)
     /\ IF nested
        THEN /\ cur # NONE /\ fuel > 0 /\ fuel' = fuel - 1 /\ cur' = cur
             /\ prog' = IF Gen THEN [prog EXCEPT ![cur] = [@ EXCEPT ![Len(@)] = Append(@, a)]] ELSE prog
@@ -35,9 +35,9 @@ Place(nested, a) ==
        ELSE /\ phase = "idle" /\ cur' = NONE /\ fuel' = 0
             /\ ops' = IF Gen THEN Append(ops, a) ELSE ops
             /\ prog' = prog
-Enter(t) == /\ cur' = t /\ fuel' = Fuel /\ steps' = steps + 1 /\ ops' = ops
+Enter(t) == /\ cur' = t /\ fuel' = Fuel /\ steps' = (IF Gen THEN steps + 1 ELSE steps) /\ ops' = ops
             /\ prog' = IF Gen THEN [prog EXCEPT ![t] = Append(@, <<>>)] ELSE prog
-External(a) == /\ cur' = NONE /\ fuel' = 0 /\ steps' = steps + 1 /\ prog' = prog
+External(a) == /\ cur' = NONE /\ fuel' = 0 /\ steps' = (IF Gen THEN steps + 1 ELSE steps) /\ prog' = prog
                /\ ops' = IF Gen /\ a.op # "" THEN Append(ops, a) ELSE ops
 
 MCScheduleNow == G /\ Total < MaxSched /\ \E t \in Tasks, nested \in BOOLEAN :
